@@ -49,6 +49,8 @@ Pool ==
     With(Base, "repo", "https://example.com/r.git/"), With(Base, "repo", "https://example.com/r"), With(Base, "repo", "https://example.com/r/"),
     \* the anonymous dimension next to a named one: both are signed
     With(Base, "matrix", "anon_plus_a"), With(Base, "matrix", "anon_plus_b"), With(Base, "matrix", "anon_adj_a"), With(Base, "matrix", "anon_adj_b"),
+    \* a PIPELINE variable that is itself named env::A is a different variable from A
+    [Base EXCEPT !.penv = ("env::A" :> "1")], [Base EXCEPT !.penv = ("env::A" :> "2") @@ ("A" :> "1")], [Base EXCEPT !.penv = ("env::A" :> "1") @@ ("A" :> "2")],
     \* env::A as a signed field versus a step variable literally named env::A / :A
     With(Base, "env", E(FALSE, ("env::A" :> "1"))), With(Base, "env", E(FALSE, (":A" :> "1"))) }
 
